@@ -102,7 +102,7 @@ structure FacV (R : Type) where
   a : MatF R
   actV : Nat → MatF R → MatV R
 
-def FacV.toAct (F : FacV R) : FacAct R := ⟨F.r, F.c, F.a, fun b m => (F.actV b m).f⟩
+def FacV.toAct (F : FacV R) : FacAct R := ⟨F.r, F.c, F.a, fun b m => F.actV b m⟩
 
 def kronStepV [Zero R] (F : FacV R) (ev : Tensor R) (i : Nat) : Tensor R :=
   let front := moveToFront ev i
@@ -227,10 +227,10 @@ def den (E : Ext R) : InvOp R → MatV R
         ((Ms.map (fun M => (M.cols, (M.den E).f))).foldr (fun p acc => mmul p.1 p.2 acc) eyeM)
   | kron Ms =>
       forceV ((Ms.map (·.rows)).prod) ((Ms.map (·.cols)).prod)
-        (kronDen (Ms.map (fun M => (⟨M.rows, M.cols, (M.den E).f, fun _ m => m⟩ : FacAct R))))
+        (kronDen (Ms.map (fun M => (⟨M.rows, M.cols, (M.den E).f, fun _ m => MatV.of m⟩ : FacAct R))))
   | bdiag Ms mults =>
       forceV (Op.dotSum (Ms.map (·.rows)) mults) (Op.dotSum (Ms.map (·.cols)) mults)
-        (bdiagDen ((Ms.map (fun M => (⟨M.rows, M.cols, (M.den E).f, fun _ m => m⟩ : FacAct R))).zip mults))
+        (bdiagDen ((Ms.map (fun M => (⟨M.rows, M.cols, (M.den E).f, fun _ m => MatV.of m⟩ : FacAct R))).zip mults))
 
 /-- `B._matmat(X)` for an operand with `b` columns -/
 def mm (E : Ext R) : InvOp R → Nat → MatF R → MatV R
@@ -281,12 +281,12 @@ def tdDefault (E : Ext R) (B : InvOp R) : MatV R :=
 def td (E : Ext R) : InvOp R → MatV R
   | op A => A.td
   | kron Ms =>
-      match Ms.map (fun M => (⟨M.rows, M.cols, (M.td E).f, fun _ m => m⟩ : FacAct R)) with
+      match Ms.map (fun M => (⟨M.rows, M.cols, (M.td E).f, fun _ m => MatV.of m⟩ : FacAct R)) with
       | [] => MatV.of (eyeM)
       | F :: Fs => forceV ((F :: Fs).map (·.r)).prod ((F :: Fs).map (·.c)).prod (kronDense F.r F.c F.a Fs)
   | bdiag Ms mults =>
       forceV (Op.dotSum (Ms.map (·.rows)) mults) (Op.dotSum (Ms.map (·.cols)) mults)
-        (bdiagDen ((Ms.map (fun M => (⟨M.rows, M.cols, (M.td E).f, fun _ m => m⟩ : FacAct R))).zip mults))
+        (bdiagDen ((Ms.map (fun M => (⟨M.rows, M.cols, (M.td E).f, fun _ m => MatV.of m⟩ : FacAct R))).zip mults))
   | triInv dt n lower a => tdDefault E (triInv dt n lower a)
   | iterInv A alg => tdDefault E (iterInv A alg)
   | prod Ms => tdDefault E (prod Ms)
